@@ -67,6 +67,12 @@ impl Semaphore {
         ensures r == self.closed
     { unimplemented!() }
 
+    // the number of free permits (compared with tokio's own count by `replay model_semaphore`)
+    #[verifier::external_body]
+    pub fn available_permits(&self) -> (r: usize)
+        ensures r as int == self.permits
+    { unimplemented!() }
+
     // Drop of a live SemaphorePermit (R5)
     #[verifier::external_body]
     pub fn release_(&mut self, p: SemaphorePermit)
@@ -107,10 +113,11 @@ impl AtomicIsize {
     pub fn fetch_add(&mut self, n: isize, o: Ordering) -> (r: isize)
         ensures r == old(self).v, final(self).v == old(self).v + n
     { unimplemented!() }
+    // a signed counter: staying within isize in either direction is assumed like fetch_add's no-overflow (A8)
+    #[verifier::external_body]
     pub fn fetch_sub(&mut self, n: isize, o: Ordering) -> (r: isize)
-        requires old(self).v - n >= isize::MIN, old(self).v - n <= isize::MAX
         ensures r == old(self).v, final(self).v == old(self).v - n
-    { let r = self.v; self.v = self.v - n; r }
+    { unimplemented!() }
     pub fn load(&self, o: Ordering) -> (r: isize) ensures r == self.v { self.v }
     pub fn store(&mut self, v: isize, o: Ordering) ensures final(self).v == v { self.v = v; }
 }
@@ -234,19 +241,35 @@ impl Runtime {
     { unimplemented!() }
 }
 
+// integer helpers without a vstd specification (A5)
+pub assume_specification[usize::abs_diff](a: usize, b: usize) -> (r: usize)
+    ensures r as int == (if a >= b { a - b } else { b - a });
+pub assume_specification[isize::unsigned_abs](a: isize) -> (r: usize)
+    ensures r as int == (if a >= 0 { a as int } else { -(a as int) });
+
+// std::thread::panicking(): whether the current thread is unwinding; arbitrary here (both answers are explored)
+#[verifier::external_body]
+pub fn vx_thread_panicking() -> (r: bool) { unimplemented!() }
+
 // vacuity guard: reachability probes `if vx_nondet() { assert(false); }` must all FAIL
 #[verifier::external_body]
 pub fn vx_nondet() -> (r: bool) { unimplemented!() }
 
 // ---- Into::into (A5: `impl<T, U: From<T>> Into<U> for T` and `impl<T> From<T> for T` of std) -----------------
-pub uninterp spec fn into_spec<A, B>(a: A) -> B;
+pub mod vx_conv {
+    use vstd::prelude::*;
+    pub uninterp spec fn into_spec<A, B>(a: A) -> B;
+    // reflexive conversion (`impl<T> From<T> for T`). Broadcast: a `?` on a value that already has the function's error type
+    // converts by this impl; no proof step should be needed for the identity.
+    pub broadcast axiom fn axiom_into_refl<A>(a: A)
+        ensures #[trigger] into_spec::<A, A>(a) == a;
+}
+pub use vx_conv::*;
+broadcast use vx_conv::axiom_into_refl;
 #[verifier::external_body]
 pub fn vx_into<A: Into<B>, B>(a: A) -> (b: B)
     ensures b == into_spec::<A, B>(a)
 { unimplemented!() }
-// reflexive conversion (`impl<T> From<T> for T`)
-pub axiom fn axiom_into_refl<A>(a: A)
-    ensures #[trigger] into_spec::<A, A>(a) == a;
 // blanket `impl<T, U: From<T>> Into<U> for T`: into = U::from, whose behaviour is `from_spec` where the impl obeys it
 pub axiom fn axiom_into_from<A, B: From<A>>(a: A)
     ensures B::obeys_from_spec() ==> #[trigger] into_spec::<A, B>(a) == B::from_spec(a);
